@@ -26,7 +26,22 @@ func vspecArtsEq(a, b map[string]HashObj) bool {
 	return true
 }
 
+// vhArtsNilable: an artifact map may also be nil (a link whose JSON says "materials": null) or empty
+var vhArtsNilable bool
+var vhArtsConcrete bool // with vhArtsNilable: only the shape (nil / empty / one artifact) is symbolic
+
 func vhSmallArts(tag string) map[string]HashObj {
+	if vhArtsNilable {
+		switch vChoice(tag+".shape", 3) {
+		case 0:
+			return nil
+		case 1:
+			return map[string]HashObj{}
+		}
+		if vhArtsConcrete {
+			return map[string]HashObj{"f-" + tag: {"sha256": "11"}}
+		}
+	}
 	h := HashObj{vPick(tag+".alg", "sha256", "sha512"): vPick(tag+".hash", "11", "22")}
 	if vChoice(tag+".second-alg", 2) == 1 {
 		h["sha384"] = vPick(tag+".hash2", "33", "44")
@@ -151,4 +166,45 @@ func vh_C10_reduce(a []int) {
 		}
 	}
 	vReach("C10.end")
+}
+
+// vh_C08_summary (also registered as vh_C05_summary_shapes): the summary link of a (sub)layout carries the requested
+// name, exactly the materials of the first step's link and exactly the products of the last step's link -
+// also when those maps are nil or empty (a link file may say "materials": null).
+// a = {#steps, 1: only the shapes of the maps are symbolic}
+func vh_C08_summary(a []int) {
+	vhArtsNilable, vhArtsConcrete = true, len(a) > 1 && a[1] == 1
+	defer func() { vhArtsNilable, vhArtsConcrete = false, false }()
+	c := vhBuildChain(a[0], 1)
+	reduced, err := ReduceStepsMetadata(c.layout, c.md)
+	if err != nil {
+		vAssert("C08.single-links-reduce", false)
+		vReach("C08.end")
+		return
+	}
+	sum, serr := GetSummaryLink(c.layout, reduced, "the-sublayout-step", vBool("use-dsse"))
+	vObserve("summary", serr == nil)
+	vAssert("C08.summary-no-error", serr == nil)
+	if serr == nil {
+		sl, isLink := sum.GetPayload().(Link)
+		first, last := c.links[0][0], c.links[len(c.links)-1][0]
+		vAssert("C08.summary-is-a-link-with-the-step-name", isLink && sl.Name == "the-sublayout-step")
+		sameArts := func(x, y map[string]HashObj) bool {
+			// nil and empty both mean "no artifacts"
+			if len(x) == 0 || len(y) == 0 {
+				return len(x) == len(y)
+			}
+			return vspecArtsEq(x, y)
+		}
+		vAssert("C08.summary-has-the-first-steps-materials", isLink && sameArts(sl.Materials, first.Materials))
+		vAssert("C08.summary-has-the-last-steps-products", isLink && sameArts(sl.Products, last.Products))
+	}
+	vReach("C08.end")
+}
+
+func vh_C05_summary_shapes(a []int) { vh_C08_summary(a) }
+
+func init() {
+	vhRegister("vh_C08_summary", vh_C08_summary)
+	vhRegister("vh_C05_summary_shapes", vh_C05_summary_shapes)
 }
